@@ -1,8 +1,10 @@
 """C07 - TFTP option negotiation follows RFC 2347-2349; the transfer honours the OACK."""
+import io
 import itertools
 import os
 import re
 import tempfile
+import types
 
 import common
 from common import Check, sx
@@ -11,8 +13,9 @@ from c01 import C01
 
 KNOWN = ("blksize", "timeout", "tsize")
 ORDER = {"blksize": 0, "timeout": 1, "tsize": 2}
-UNKNOWN_NAMES = ["windowsize", "x", "blksize2", "tsiz", "time out", ""]
-NON_DECIMAL = ["", "0", "08", "008", "+8", "-8", " 8", "8 ", "8\n", "8.0", "0x10", "1e3", "1_0", "eight", "8a", "a8"]
+UNKNOWN_NAMES = ["windowsize", "x", "blksize2", "tsiz", "time out", "", "blksiz\xe9", "\xc0", "tsize\xa0"]
+NON_DECIMAL = ["", "0", "08", "008", "+8", "-8", " 8", "8 ", "8\n", "8.0", "0x10", "1e3", "1_0", "eight", "8a", "a8",
+               "1024x", "5s", "512.0", "8\xa0", "\xb2", "\xbd", "8\xe9", "\xb9\xb2", "8\x00", "8\t", "True", "None"]
 HUGE = ["99999999999999999999", "1" + "0" * 60, "9" * 300]
 
 
@@ -57,7 +60,7 @@ def predict(c):
     if v is not None and dec.match(v) and 1 <= int(v) <= c["max_tmo"]:
         tmo = int(v)
         n += 1
-    if o.get("tsize") == "0" and not c["netascii"] and c["kind"][0] in ("bytesio", "file", "fileread"):
+    if o.get("tsize") == "0" and not c["netascii"] and model_kind(c["kind"])[0] in ("bytesio", "file"):
         n += 1
     return bs, tmo, n > 0
 
@@ -124,19 +127,106 @@ def canon_oack(trace):
     return out
 
 
-def run_impl_fileread(c):
-    """own handler (tftp_common is not changed): real buffered file advanced by read(k)"""
-    k = c["kind"][1]
+# stream kinds with an OS/library call that fails or behaves unusually-but-legally at one point; the model kind each
+# of them must behave as (tftp_common.kind_sx encoding):
+#   ("fileread", k)      buffered file advanced by read(k): fd offset != tell()          -> as ("file", k)
+#   ("bytesio_err",)     BytesIO whose getbuffer() raises ValueError                      -> size unknown ("noreg")
+#   ("file_tell_err", k) real file (seek(k)) whose tell() raises OSError                  -> size unknown
+#   ("file_fstat_err",)  stream whose fileno() is a descriptor fstat() rejects (EBADF)    -> size unknown
+#   ("file_unlinked", k) real file whose directory entry is removed before the transfer    -> as ("file", k)
+FAULT_KINDS = [("bytesio_err",), ("file_tell_err", 0), ("file_tell_err", 4), ("file_fstat_err",), ("file_unlinked", 0),
+               ("file_unlinked", 2)]
+
+
+def model_kind(kind):
+    if kind[0] in ("fileread", "file_unlinked"):
+        return ("file", kind[1])
+    if kind[0] in ("bytesio_err", "file_tell_err", "file_fstat_err"):
+        return ("noreg",)
+    return kind
+
+
+class _BytesIONoBuffer(io.BytesIO):
+    """a real BytesIO (the isinstance test of the code holds) whose getbuffer() fails; its release is recorded"""
+    _released = None
+
+    def getbuffer(self):
+        raise ValueError("buffer not available")
+
+    def __exit__(self, *a):
+        if self._released is not None:
+            self._released.append(("close_file",))
+        return super().__exit__(*a)
+
+
+class _NoTell:
+    """real file object whose tell() fails"""
+    def __init__(self, f):
+        self._f = f
+
+    def __getattr__(self, name):
+        return getattr(self._f, name)
+
+    def tell(self):
+        raise OSError(29, "Illegal seek")
+
+    def __enter__(self):
+        self._f.__enter__()
+        return self
+
+    def __exit__(self, *a):
+        return self._f.__exit__(*a)
+
+
+class _BadFdStream(io.RawIOBase):
+    def __init__(self, content):
+        super().__init__()
+        self._b = io.BytesIO(content)
+
+    def readable(self):
+        return True
+
+    def read(self, n=-1):
+        return self._b.read(n)
+
+    def fileno(self):
+        return 1000000                      # os.fstat -> OSError(EBADF)
+
+
+def make_stream(c, paths):
+    kind, content = c["kind"], c["content"]
+    if kind[0] == "bytesio_err":
+        return _BytesIONoBuffer(content)
+    if kind[0] == "file_fstat_err":
+        return _BadFdStream(content)
+    k = kind[1]
+    fd, path = tempfile.mkstemp(prefix="vf_tsize_k_")
+    os.write(fd, b"P" * k + content)
+    os.close(fd)
+    paths.append(path)
+    f = open(path, "rb")
+    if kind[0] == "fileread":
+        assert f.read(k) == b"P" * k
+        return f
+    f.seek(k)
+    if kind[0] == "file_tell_err":
+        return _NoTell(f)
+    if kind[0] == "file_unlinked":
+        os.remove(path)
+        return f
+    raise ValueError(kind)
+
+
+def run_impl_custom(c):
+    """own handler (tftp_common is not changed) for the stream kinds defined in this file"""
     released = []
     paths = []
 
     def handler(filename, client, server, context):
-        fd, path = tempfile.mkstemp(prefix="vf_tsize_rd_")
-        os.write(fd, b"P" * k + c["content"])
-        os.close(fd)
-        paths.append(path)
-        f = open(path, "rb")
-        assert f.read(k) == b"P" * k
+        f = make_stream(c, paths)
+        if isinstance(f, _BytesIONoBuffer):
+            f._released = released
+            return f
         return T._LoggedFile(f, released)
     try:
         tr = T.run_impl(c, handler=handler)
@@ -151,6 +241,111 @@ def run_impl_fileread(c):
         i = max((j for j, e in enumerate(tr) if e == [6]), default=len(tr))
         tr = tr[:i] + [[5]] + tr[i:]
     return tr
+
+
+# ----------------------------------------------------------------------------- end to end through the request port
+def encode_rrq(fn, mode, opts):
+    d = b"\x00\x01" + fn + b"\x00" + mode + b"\x00"
+    for k, v in opts:
+        d += k.encode("latin-1") + b"\x00" + v.encode("latin-1") + b"\x00"
+    return d
+
+
+class _SeqHandler:
+    """request handler of the end-to-end runs (made a TftpRequestHandler subclass at first use)"""
+
+
+def run_sequence(cases, rrqs, limits):
+    """ONE real TftpServer object serves the read requests `rrqs` one after the other through the real
+    _process_request / decode_read_request / _handle_read; each transfer runs under its own fake socket with the
+    client script of the corresponding case.  Returns one trace per request (as tftp_common.run_impl does)."""
+    import socket as real_socket
+    import fake_net
+    from vinegar.tftp import server as S
+    state = {}
+
+    class Handler(S.TftpRequestHandler):
+        def can_handle(self, filename, context):
+            return True
+
+        def handle(self, filename, client_address, server_address, context):
+            c = state["case"]
+            if model_kind(c["kind"]) != c["kind"]:
+                f = make_stream(c, state["paths"])
+                if isinstance(f, _BytesIONoBuffer):
+                    f._released = state["log"]
+                    return f
+                return T._LoggedFile(f, state["log"])
+            f = T.open_stream(c, state["log"], state["paths"])
+            return f if isinstance(f, (T._LoggedBytesIO, T.BufferedChunkedStream)) else T._LoggedFile(f, state["log"])
+    max_bs, max_tmo, dflt, retries = limits
+    srv = S.TftpServer([Handler()], default_timeout=dflt, max_timeout=max_tmo, max_retries=retries,
+                       max_block_size=max_bs, block_counter_wrap_value=0)
+    replies = []
+    srv._socket = types.SimpleNamespace(sendto=lambda data, addr: replies.append((bytes(data), addr)))
+    created = []
+    real_class = S._TftpReadRequest
+
+    class Rec(real_class):
+        def __init__(self, *a):
+            super().__init__(*a)
+            created.append(self)
+    traces = []
+    for c, rq in zip(cases, rrqs):
+        clock = [0.0]
+        log = []
+        state.update(case=c, log=log, paths=[])
+        shim = types.SimpleNamespace(**{k: getattr(real_socket, k) for k in dir(real_socket) if not k.startswith("__")})
+        script = [(t, T.ADDRS[a], d) for (t, a, d) in c["events"]]
+        shim.socket = lambda **k: fake_net.FakeSock(list(script), clock, log, 0)
+        old = (S.socket, S.time, S._TftpReadRequest)
+        S.socket, S.time, S._TftpReadRequest = shim, types.SimpleNamespace(monotonic=lambda: clock[0]), Rec
+        h = fake_net._Log(log)
+        S.logger.addHandler(h)
+        old_level, old_prop = S.logger.level, S.logger.propagate
+        S.logger.setLevel(20)
+        S.logger.propagate = False
+        del created[:]
+        del replies[:]
+        try:
+            try:
+                srv._process_request(rq, fake_net.CLI, fake_net.SRV)
+            except Exception as ex:
+                log.append(("logexc", type(ex).__name__))
+            for r in created:
+                r._thread.join(60)
+                if r._thread.is_alive():
+                    log.append(("hang",))
+        finally:
+            S.socket, S.time, S._TftpReadRequest = old
+            S.logger.removeHandler(h)
+            S.logger.setLevel(old_level)
+            S.logger.propagate = old_prop
+            for p in state["paths"]:
+                try:
+                    os.remove(p)
+                except OSError:
+                    pass
+        out = []
+        if replies or not created:
+            out.append([99, b"request port: no transfer started / reply " + b"".join(r[0] for r in replies)[:40]])
+        for e in log:
+            if e[0] == "send":
+                out.append([1, e[1], T.ADDR_ID.get(e[2], 9), T.parse_packet(e[3])])
+            elif e[0] == "recv":
+                out.append([2, e[1], T.ADDR_ID.get(e[2], 9), e[3]])
+            elif e[0] == "timeout":
+                out.append([3, e[1]])
+            elif e[0] == "logexc":
+                out.append([4])
+            elif e[0] == "close_file":
+                out.append([5])
+            elif e[0] == "close_sock":
+                out.append([6])
+            elif e[0] == "hang":
+                out.append([98])
+        traces.append(out)
+    return traces
 
 
 class C07(C01):
@@ -263,6 +458,13 @@ class C07(C01):
                         c = self.base(opts, kind=kind, netascii=na)
                         c = dict(c, content=bytes((i * 5 + 2) % 251 for i in range(n)))
                         yield with_script(c, "coop", rng)
+        # (i) the size cannot be determined because one call fails (getbuffer / tell / fstat), or the file has lost
+        #     its directory entry: the option is dropped resp. announced, and the transfer is complete either way
+        for kind in FAULT_KINDS:
+            for opts in ([("tsize", "0")], [("tsize", "0"), ("blksize", "8")], [("TSIZE", "0"), ("timeout", "1")], []):
+                for na in (False, True):
+                    c = self.base(opts, kind=kind, netascii=na)
+                    yield self.finish(c, rng, "coop")
         # (h) duplicate / stale ACKs at mid-interval with a negotiated time-out different from the default
         for (tmo, dflt) in ((1, 2), (3, 1), (2, 5), (None, 2)):
             for extra in ([], [("blksize", "8")], [("tsize", "0")]):
@@ -291,19 +493,76 @@ class C07(C01):
                 else:
                     v = rng.choice(["", "0", "8", "x"])
                 opts.append((nm, v))
-            c = self.base(opts, max_bs=max_bs, max_tmo=max_tmo, default_tmo=dflt, kind=rng.choice(KINDS + READ_KINDS),
+            c = self.base(opts, max_bs=max_bs, max_tmo=max_tmo, default_tmo=dflt, kind=rng.choice(KINDS + READ_KINDS + FAULT_KINDS),
                           netascii=rng.random() < 0.25, retries=rng.choice([0, 1, 2, 3]), wrap=rng.choice([0, 1, None]))
             yield self.finish(c, rng, rng.choice(["coop", "coop", "coop0", "silent", "skip0", "late", "lossy", "dup"]))
 
     def impl(self, c):
-        if c["kind"][0] == "fileread":
-            return canon_oack(run_impl_fileread(c))
-        return canon_oack(T.run_impl(c))
+        try:
+            if model_kind(c["kind"]) != c["kind"]:
+                return canon_oack(run_impl_custom(c))
+            return canon_oack(T.run_impl(c))
+        except Exception:      # noqa: BLE001
+            # the constructor of _TftpReadRequest raised: it runs in the request-port thread, where this is the
+            # internal-error path (nothing is sent, an exception is logged) - a concrete failing input, not a crash
+            return [[4]]
 
     def line(self, c, obs):
-        if c["kind"][0] == "fileread":
-            c = dict(c, kind=("file", c["kind"][1]))
-        return sx([T.case_sx(c), obs])
+        return sx([T.case_sx(dict(c, kind=model_kind(c["kind"]))), obs])
+
+    def extra_checks(self, tier, rng, report):
+        """(B) histories: one TftpServer object serves 3-5 read requests with different options, modes and stream
+        kinds one after the other, from the bytes of the request (decode_read_request) to the last DATA packet; each
+        transfer is judged like a directly constructed one (negotiation must not depend on earlier requests)"""
+        quick = tier == "quick"
+        n_seq, n_req, fails = 0, 0, []
+        for _ in range(60 if quick else 800):
+            limits = (rng.choice([512, 1024, 1428, 65464]), rng.choice([1, 5, 30, 255]), None, rng.choice([1, 2, 3]))
+            limits = (limits[0], limits[1], rng.choice([d for d in (1, 2, 5) if d <= limits[1]]), limits[3])
+            cases, rrqs = [], []
+            for _k in range(rng.randrange(3, 6)):
+                wire = []
+                for _o in range(rng.randrange(0, 5)):
+                    nm = rng.choice(["blksize", "timeout", "tsize", rng.choice(UNKNOWN_NAMES)])
+                    nm = rng.choice(styles(nm))
+                    v = rng.choice({"blksize": blksize_grid(limits[0]), "timeout": timeout_grid(limits[1]),
+                                    "tsize": TSIZE_GRID + ["0"] * 6}.get(nm.lower(), ["", "0", "8", "x"]))
+                    if "\x00" in v or "\x00" in nm:
+                        continue
+                    wire.append((nm, v))
+                na = rng.random() < 0.25
+                mode = rng.choice([b"netascii", b"NETASCII", b"NetAscii"] if na else [b"octet", b"OCTET", b"OcTeT"])
+                # what decode_read_request makes of the wire form: ASCII only, later exact duplicate wins in place
+                dec = {}
+                for (nm, v) in wire:
+                    dec["".join(ch for ch in nm if ord(ch) < 128)] = "".join(ch for ch in v if ord(ch) < 128)
+                c = self.base(list(dec.items()), max_bs=limits[0], max_tmo=limits[1], default_tmo=limits[2],
+                              kind=rng.choice(KINDS + READ_KINDS + FAULT_KINDS), netascii=na, retries=limits[3])
+                c = self.finish(c, rng, rng.choice(["coop", "coop", "dup", "silent", "skip0"]))
+                cases.append(c)
+                rrqs.append(encode_rrq(b"some/file", mode, wire))
+            traces = run_sequence(cases, rrqs, limits)
+            n_seq += 1
+            not_served = [any(e[0] in (98, 99) for e in tr) for tr in traces]
+            traces = [[e for e in tr if e[0] not in (98, 99)] for tr in traces]
+            lines = [self.line(c, canon_oack(tr)) for c, tr in zip(cases, traces)]
+            for i, (c, tr, out) in enumerate(zip(cases, traces, common.run_model(self.ident, lines))):
+                n_req += 1
+                r = common.unsx(out) if not out.startswith(("!", "#")) else None
+                fi = common.names(r[2]) if r else ["C07:e2e_case_rejected_by_driver"]
+                if not_served[i]:
+                    fi = ["C07:e2e_request_not_served"] + fi
+                if r and not fi and r[0] != r[3]:
+                    fi = ["C07:e2e_differs_from_model"]
+                if fi and len(fails) < 2:
+                    case = dict(c, _extra=True, part=f"end to end: request {i + 1} of {len(cases)} served by one "
+                                                     "TftpServer object", rrq_hex=rrqs[i].hex(),
+                                earlier_requests=[x.hex() for x in rrqs[:i]])
+                    fails.append((case, fi, common._jsonable(canon_oack(tr)), common._jsonable(r[0] if r else None)))
+        report.setdefault("extra_failing", []).extend(fails)
+        report["evaluations"] += n_req
+        report["impl_failures"] += len(fails)
+        report["extra"].update({"e2e_sequences": n_seq, "e2e_requests": n_req})
 
     def nontrivial(self, c, obs):
         if c["options"]:
